@@ -244,7 +244,9 @@ def _ini_readback(m, tier, seed, out, ob):
              " COM3", "COM3 ", "\tCOM3"]
     libsets = [None, [], ["Servo"], ["Servo", "LiquidCrystal", "Servo"], ["", "A", "", "B", "A"], ["A", "B", "C", "B", "A"],
                ["LiquidCrystal_I2C", "LiquidCrystal_I2C"]]
-    srcs = ["void setup(){}\n", "// ünïcode ✓\nvoid loop(){}\n", ""]
+    srcs = ["void setup(){}\n", "// ünïcode ✓\nvoid loop(){}\n", "", "line1\r\nline2\r\n", "x\ry\n", "const char *s = R\"(raw\r\n)\";\n", "no trailing newline",
+            "\r\r\n", "tab\there\n\n\n"]
+    dashed = [b for b in boards if not b.replace("_", "").isalnum()]
     t0 = time.time()
     fails, runs = [], 0
     base = Path(tempfile.mkdtemp(prefix="c13-ini-"))
@@ -252,9 +254,9 @@ def _ini_readback(m, tier, seed, out, ob):
         cases = list(itertools.product(ports, libsets))
         rnd.shuffle(cases)
         for port, libs in cases[:n]:
-            board = rnd.choice(boards)
+            board = rnd.choice(boards) if (runs % 4 or not dashed) else dashed[(runs // 4) % len(dashed)]
             plat = m.BOARD_TO_PLATFORM[board]
-            src = rnd.choice(srcs)
+            src = srcs[runs % len(srcs)]
             d = base / f"p{runs}"
             d.mkdir()
             before = sorted(str(p) for p in base.rglob("*"))
@@ -267,8 +269,8 @@ def _ini_readback(m, tier, seed, out, ob):
             prob = None
             if after != ["platformio.ini", "src", "src/main.cpp"]:
                 prob = f"files created: {after}"
-            elif (d / "src" / "main.cpp").read_text(encoding="utf-8") != src:
-                prob = "main.cpp differs from the given source"
+            elif (d / "src" / "main.cpp").read_bytes() != src.encode("utf-8"):
+                prob = f"main.cpp differs from the given source {src!r}: {(d / 'src' / 'main.cpp').read_bytes()!r}"
             elif len(cp.sections()) != 1 or not cp.sections()[0].startswith("env:"):
                 prob = f"sections: {cp.sections()}"
             else:
@@ -324,7 +326,8 @@ def native_samples(reg, rnd, n):
     m = real_pio()
     boards = sorted(m.BOARD_TO_PLATFORM)
     jobs = []
-    plats = ["atmelavr", "atmelmegaavr", "atmelsam", "", "AtmelAVR"]
+    plats = ["atmelavr", "atmelmegaavr", "atmelsam", "", "AtmelAVR", "atmelavr@", "atmelavr@1.2.3", "atmelmegaavr@atmelavr", "atmelavr ", " atmelavr", "atmelavr\n",
+             "atmel", "atmelavrx", "platformio/atmelavr", "atmelavr#x", "atmelavr;atmelmegaavr"]
     for i in range(n * 3):
         b = rnd.choice(boards)
         near = rnd.choice([b, b.upper(), b.lower(), b + " ", b[:-1], "uno", "nano_every", "esp32dev", ""])
